@@ -140,16 +140,16 @@ Definition ex_ops : list op :=
   [OSetAttrs [(str "a", VInt 1); (str "a", VStr (hx "68c3a96c6c6f"))];
    OSetAttrs [(str "b", VInt 3); (str "c", VInt 4); (str "a", VStr (hx "ff616263")); ([], VInt 0); (str "z", VInvalid)];
    OSetStatus 1 (str "d1"); OSetStatus 0 (str "x"); OSetStatus 1 (str "d2");
-   OAddEvent (str "e1") 5 [(str "k", VInt 1); (str "k", VInt 2)]; ORecordError (str "T") (str "boom") 6 [];
+   OAddEvent (str "e1") 5 [(str "k", VInt 1); (str "k", VInt 2)]; ORecordError (str "T") (str "boom") 6 [] false; ORead;
    OAddLink 0 false []; OAddLink 1 false [(str "k", VInt 1)]; OAddLink 2 true [];
    OSetName (str "n2"); OEnd 77; OSetName (str "late"); OSetAttrs [(str "b", VInt 9)]; OSetStatus 2 []; OEnd 99].
 Definition ex_so : start_opts :=
-  {| so_attrs := [(str "a", VInt 0); (str "s", VInvalid)]; so_links := [(0, false, []); (5, false, [(str "k", VInt 1)])];
+  {| so_sattrs := [(str "b", VInvalid)]; so_attrs := [(str "a", VInt 0); (str "s", VInvalid)]; so_links := [(0, false, []); (5, false, [(str "k", VInt 1)])];
      so_start := 11; so_kind := 9 |}.
 Example ex_run :
   run_spec ex_lim ex_so (str "n") ex_ops =
   {| x_name := str "n2"; x_status := (1, str "d2");
-     x_attrs := [(str "a", VStr (str "ab")); (str "b", VInt 3)]; x_dropped := 4;
+     x_attrs := [(str "a", VStr (str "ab")); (str "b", VInt 3)]; x_dropped := 5;
      x_events := [{| e_name := str "exception"; e_time := 6; e_attrs := [(str "exception.type", VStr (str "T"))]; e_dropped := 1 |}];
      x_evdropped := 1;
      x_links := [{| l_ctx := 2; l_ts := true; l_attrs := []; l_dropped := 0 |}]; x_lkdropped := 2;
@@ -161,5 +161,5 @@ Example ex_limit0 :
   x_lkdropped (snapshot (run_model lim_lk0 no_start (str "s") [OAddLink 1 false []; OEnd 0])) = 1%nat.
 Proof. vm_compute. split; reflexivity. Qed.
 Example ex_keys : kept_keys 2 (offers_of (start_ops ex_so ++ before_end ex_ops)) = [str "a"; str "b"] /\
-                  dropped_count 2 (offers_of (start_ops ex_so ++ before_end ex_ops)) = 4%nat.
+                  dropped_count 2 (offers_of (start_ops ex_so ++ before_end ex_ops)) = 5%nat.
 Proof. vm_compute. split; reflexivity. Qed.
